@@ -44,7 +44,7 @@ func init() {
 		Tech:  "symbolic affine execution of the route anchors, SSA value-identity of the arrowhead flag, typed-AST output mapping, forward slice of the component shift",
 		Rules: []string{"AFF-1", "AFF-9", "PAIR-2", "PAIR-3", "PAIR-4", "FLOW-1"},
 		Explanation: "AFF-1: the first point of every non-flat route is (n.X + W/2, n.Y + H) of ns[0] and the last is (n.X + W/2, n.Y) of ns[len-1] for Straight, Polyline, Ortho and the 2-point spline; PAIR-2: flag = reversed, so after UnreverseEdges the flagged end is ToID; PAIR-3 output mapping; PAIR-4 route ends are real nodes; " +
-			"FLOW-1/AFF-6: points are shifted in x exactly like their nodes. Not decided: that ns[0] is the upper node on every input (depends on layering), fitted splines, finiteness.",
+			"FLOW-1/AFF-6: points are shifted in x exactly like their nodes (the shift lands in the point stored in the output, not in a copy); AFF-9 end-control clause: every spline piece, MakeSpline's included, starts and ends at exactly the points it was given. Not decided: that ns[0] is the upper node on every input (depends on layering), fitted splines, finiteness.",
 		Assumptions: []string{"layering is feasible (C03, undecided part)"},
 	})
 	registerProp(&Property{
@@ -61,7 +61,7 @@ func init() {
 		Rules: []string{"LANG-0", "DET-1", "DET-2", "DET-3", "GLOB-1", "RO-1", "OPTS-1"},
 		Explanation: "With LANG-0 (no goroutines, select, unsafe, reflect) run-to-run variation of a Go program can only come from map iteration order, pointer values observed other than by ==, and clock/random/environment calls. " +
 			"DET-2 closes the last two: the direct library callees of reachable module code are on a reviewed allow-list, time.Now only seeds a per-call RNG whose every draw is guarded by the documented non-deterministic option, and pointer values cannot be ordered or hashed without unsafe. " +
-			"DET-1 classifies every range over a map in reachable code as a set of commutative updates; DET-3 shows the component split keeps input order; GLOB-1 shows no state survives a call; RO-1 shows the caller's edge slice and size map are only read. " +
+			"DET-1 classifies every range over a map in reachable code as a set of commutative updates; DET-3 shows the component split keeps input order; GLOB-1 shows no state survives a call in a package-level variable and OPTS-1 that none survives in a variable or map captured by an option closure; RO-1 shows the caller's edge slice and size map are only read. " +
 			"Not decided: floating-point results are assumed reproducible for identical operation sequences (true for Go on one platform); library internals are trusted by table.",
 		Assumptions: []string{"stdlib functions on the allow-list are deterministic functions of their arguments", "float max/min reductions are order-insensitive (no NaN inputs)", "VTA call graph over-approximates dynamic calls (no reflect/unsafe: LANG-0)"},
 	})
@@ -95,14 +95,14 @@ func init() {
 		Tech:  "symbolic recurrence extraction (height = max(1, child + Delta), Layer = final max - height) + running-extremum lint + recursion table",
 		Rules: []string{"AFF-8", "AGG-1", "REC-1", "DISP-1", "OPTS-1"},
 		Explanation: "AFF-8: the height accumulator starts at the constant 1 and is updated as max(acc, child + Edge.Delta) over out-edges, and Node.Layer is stored as L - height with L the final value of the max-reduction over all heights (read after the traversal loop); AGG-1: no value derived from the still-growing maximum is stored during the traversal. " +
-			"AFF-8 also decides that a traversal is started from every node of the graph (a full, never-left-early loop over the node list or a same-length copy) and that only self-loops are left out of the maximum. Together these are the specification of longest-path layering; what remains is termination of the memoised traversal (REC-1 table entry: acyclicity after phase 1). Not decided: that the drawn bands are these layers (C03's band clause) and the orientation it layers (C14's rules).",
+			"AFF-8 also decides that a traversal is started from every node of the graph (a full, never-left-early loop over the node list or a same-length copy) and that only self-loops are left out of the maximum. Together these are the specification of longest-path layering; what remains is termination of the memoised traversal (REC-1 table entry: acyclicity after phase 1). DISP-1 and OPTS-1: the layerer that runs is the selected one (dispatch depends on the algorithm constant only; no other option stores a layering algorithm on the side). Not decided: that the drawn bands are these layers (C03's band clause) and the orientation it layers (C14's rules).",
 		Assumptions: []string{"the graph is acyclic after phase 1"},
 	})
 	registerProp(&Property{
 		ID: "C12", Kind: "necessary structural clauses",
 		Tech:  "ownership table, phi-pairing analysis of best-so-far, shift-bound lint, affine recurrences of the simple positioners",
 		Rules: []string{"OWN-1", "BEST-1", "SHIFT-1", "AFF-4", "FLOW-1"},
-		Explanation: "Decides the 'carried unchanged' half: OWN-1 order state (LayerPos, order of Layer.Nodes) changes only in phase 3; BEST-1 the logged number belongs to the restored order; SHIFT-1 the layer filter is exact beyond 64 layers; AFF-4 for VAlign/PackRight x strictly follows order. " +
+		Explanation: "Decides the 'carried unchanged' half: OWN-1 order state (LayerPos, order of Layer.Nodes) changes only in phase 3; BEST-1 the logged number belongs to the restored order; SHIFT-1 the layer filter is exact beyond 64 layers; AFF-4 for VAlign/PackRight x strictly follows order; FLOW-1 recurrence: the next component starts right of every node of the previous ones, helper nodes included, so components cannot cross each other. " +
 			"Not decided: exactness of the accumulator tree and radix sort; order preservation by SinkColoring/NetworkSimplex compaction.",
 		Assumptions: []string{"clauses are necessary, not sufficient"},
 	})
@@ -128,7 +128,7 @@ func init() {
 		Rules: []string{"LANG-0", "GLOB-1", "RO-1", "DET-2", "OPTS-1"},
 		Explanation: "A data race needs a location reachable by two goroutines with one writer. Locations a Layout call can reach are its own allocations, its arguments (independent by hypothesis, and only read: RO-1), package-level variables and library internals. " +
 			"GLOB-1 enumerates every package-level variable of the module and every store, address-taking and mutation through a loaded reference: stores exist only in package monitor under the m != nil guard, so with no monitor supplied m stays nil by induction and no store executes; defaultOptions is only loaded. " +
-			"LANG-0 excludes goroutines, unsafe and reflection inside the library; DET-2's allow-list of directly called library functions contains only goroutine-safe or per-call state (rand.New per call). 'Same result as alone' then follows from the C07 argument. " +
+			"LANG-0 excludes goroutines, unsafe and reflection inside the library; DET-2's allow-list of directly called library functions contains only goroutine-safe or per-call state (rand.New per call). Option values are the one kind of argument concurrent calls legitimately share: OPTS-1 shows their closures write nothing they capture. 'Same result as alone' then follows from the C07 argument. " +
 			"Not decided: nothing of the property is left to run time except the trusted base (go/types, go/ssa, the stdlib allow-list).",
 		Assumptions: []string{"the Go memory model: no race without a shared written location", "stdlib functions on the DET-2 allow-list keep no cross-call mutable state", "callers pass independent sources (property hypothesis)"},
 	})
@@ -137,7 +137,7 @@ func init() {
 		Tech:  "symbolic affine execution: difference equations and reductions of the two positioners",
 		Rules: []string{"AFF-4", "OWN-1", "OPTS-1", "DISP-1", "ORD-6"},
 		Explanation: "OPTS-1: the spacing and size options reach the parameter record unchanged and unconditionally (NodeSpacing = 0 included). AFF-4, in the affine domain: VAlign - the forward loop over layer.Nodes stores X := c and updates c' - c = n.W + s; c0 = (M - E)/2 where E is the layer's own accumulated extent (sum of n.W plus s under the 'not last' test) and M is a max-reduction of E over all layers, so the extent is sum W + (k-1)s, every layer's midpoint is M/2 and the widest layer starts at 0. " +
-			"PackRight - reverse iteration, c' - c = -(n.W + s), X := c', c0 = 0, so every layer's right end is -s; then X -= L with L the min-reduction of the final c, so the leftmost X is 0. OWN-1 guarantees nothing else writes X. Not decided: floating-point rounding, which the identities ignore.",
+			"PackRight - reverse iteration, c' - c = -(n.W + s), X := c', c0 = 0, so every layer's right end is -s; then X -= L with L the min-reduction of the final c, so the leftmost X is 0. OWN-1 guarantees nothing else writes X. ORD-6: the record holding the spacing is read only after all options were applied; DISP-1: the positioner that runs is the selected one. Not decided: floating-point rounding, which the identities ignore.",
 		Assumptions: []string{"rounding of float sums is ignored"},
 	})
 	registerProp(&Property{
@@ -145,7 +145,7 @@ func init() {
 		Tech:  "dimension (unit) inference by unification over the typed AST + read-confinement of lengths",
 		Rules: []string{"LANG-0", "DIM-1", "OWN-2", "ORD-6", "OPTS-1"},
 		Explanation: "IEEE +, -, *, /, min, max, abs, neg and comparisons commute exactly with multiplication by 2^k (no over/underflow). If every float in the in-scope code has a consistent degree (DIM-1), outputs have degree 1, every comparison is between equal degrees (or with 0/Inf), no length is converted to an integer or fed to a non-homogeneous function, " +
-			"and phases 1-3 never read a length (OWN-2), then by induction every degree-1 value scales by the factor and every discrete decision is unchanged. Scope: functions reachable from Layout after cutting the NetworkSimplex positioner and spline routing (excluded by the property) and flatNonConsecutive (absolute offsets; runs only for same-layer edges, which a feasible layering never produces).",
+			"and phases 1-3 never read a length (OWN-2), then by induction every degree-1 value scales by the factor and every discrete decision is unchanged. Scope: functions reachable from Layout after cutting the NetworkSimplex positioner and spline routing (excluded by the property) and flatNonConsecutive (absolute offsets; runs only for same-layer edges, which a feasible layering never produces). ORD-6 and OPTS-1: the scaled sizes and spacings actually reach the pipeline (no length is taken from the defaults before the options are applied, no option replaces a value by a constant).",
 		Assumptions: []string{"no overflow/underflow for the scale factors in range", "same-layer edges do not occur (feasible layering)"},
 	})
 	registerProp(&Property{
